@@ -356,27 +356,6 @@ Qed.
 
 (* ---- $ORIGIN and $TTL -------------------------------------------------------------------------------------------------------------------- *)
 
-Lemma expect_field_ci_yes fld tok b : length tok = length fld -> eq_ignore_case tok fld = true ->
-  Forall (fun c => c <> 10) tok -> runs fend (expect_field_ci fld) tok b b true.
-Proof.
-  intros Hl Hc Hn r t E P W Ht. unfold expect_field_ci, expect_field_impl.
-  rewrite E, <- Hl, firstn_app_exact, Nat.eqb_refl, Hc, at_field_end_at_app. unfold fend in Ht. rewrite Ht. cbn [bind].
-  eexists. split; [reflexivity|]. subst b. apply post_adv; assumption.
-Qed.
-
-Lemma apply_case_no_nl lows s : Forall (fun c => c <> 10) s -> Forall (fun c => lower c <> 10) s ->
-  Forall (fun c => c <> 10) (apply_case lows s).
-Proof.
-  revert lows. induction s as [|c s IH]; intros lows H1 H2; [constructor|]. inversion H1; subst. inversion H2; subst.
-  cbn [apply_case]. constructor; [destruct (hd false lows); assumption|apply IH; assumption].
-Qed.
-
-Lemma directive_word lows w b : Forall (fun c => c <> 10) w -> Forall (fun c => lower c <> 10) w ->
-  runs fend (expect_field_ci w) (apply_case lows w) b b true.
-Proof.
-  intros H1 H2. apply expect_field_ci_yes; [apply apply_case_length|rewrite eqic_apply_case, eqic_lower; apply bytes_eqb_refl|apply apply_case_no_nl; assumption].
-Qed.
-
 Lemma origin_word_ok : Forall (fun c => c <> 10) d_origin /\ Forall (fun c => lower c <> 10) d_origin.
 Proof. split; repeat constructor; discriminate. Qed.
 Lemma ttl_word_ok : Forall (fun c => c <> 10) d_ttl /\ Forall (fun c => lower c <> 10) d_ttl.
